@@ -150,6 +150,13 @@ func checkC06Term(c TermOutCase) Outcome {
 		!strings.EqualFold(bare, in.ID) {
 		return fail(key, "ExtractLicenses(%q) = %q names a different license than the input (%s)", in.Text, out, in.ID)
 	}
+	// '+' kept: the canonical spelling carries a '+' (or names an -or-later id) exactly when the input
+	// term, by the documented reading of its spelling, allows later versions
+	carries := strings.HasSuffix(idPart, "+") || strings.HasSuffix(bare, "-or-later")
+	if carries != in.Plus {
+		return fail(key, "ExtractLicenses(%q) = %q: the input %s later versions, the canonical spelling %s", in.Text, out,
+			map[bool]string{true: "allows", false: "does not allow"}[in.Plus], map[bool]string{true: "does", false: "does not"}[carries])
+	}
 	// same denotation: input and output match the same probes, in both directions
 	probes := []string{}
 	for _, rel := range tb.Relatives(in.Base) {
